@@ -7,7 +7,8 @@
 // Every colour group runs the script on its own sub-communicator; script ranks that do not exist there issue nothing.
 // Output lines are prefixed "@<run>.<container> " with run = w or s.
 // A token may be prefixed "1/" to address a SECOND disjoint_set of the same type alive on the same communicator.
-// ":str" in argv[1] runs disjoint_set<std::string> (order-preserving encoding of the script's numbers) instead of <int64_t>.
+// ":str" in argv[1] runs disjoint_set<std::string> (order-preserving encoding of the script's numbers) instead of <int64_t>,
+// ":dbl" disjoint_set<double> (number 0 is named +0.0 and -0.0 alternately).
 // Every rank parses the whole script (argv[2..]); tokens:
 //   u:<r>:<a>:<b>   rank r (or * = every rank) calls async_union(a, b)
 //   x:<r>:<a>:<b>   ... async_union_and_execute(a, b, cb)      (cb logs "c <epoch> a b")
@@ -20,6 +21,7 @@
 //                   for the items at positions p with p % nranks == r, e = every rank asks for all;
 //                   "f <id> item rep" per returned pair
 //   A:<id>          for_all: "a <id> item rep" per local item
+//   E               the container is destroyed and a new one constructed at the same address (no barrier of the harness in between)
 //   K               clear() on every rank (callbacks are tagged with the number of clears returned so far:
 //                   "c <epoch> a b <seg>")
 #include "hcommon.hpp"
@@ -27,6 +29,7 @@
 #include <ygm/container/disjoint_set.hpp>
 #include <set>
 #include <memory>
+#include <optional>
 
 static int g_epoch[2] = {0, 0};
 static int g_seg[2] = {0, 0};   // number of clear() calls that have returned on this rank, per container
@@ -44,14 +47,25 @@ static void emit(int cid, const std::string& line) { hc::out("@" + g_run + "." +
 // that is not of that form (e.g. a default-constructed "") is printed as -1.
 template <class T> struct codec;
 template <> struct codec<int64_t> {
-  static int64_t enc(int64_t v) { return v; }
+  static int64_t enc(int64_t v, int = 0) { return v; }
   static std::string show(const int64_t& v) { return std::to_string(v); }
 };
 template <> struct codec<std::string> {
-  static std::string enc(int64_t v) { char b[32]; snprintf(b, sizeof b, "k%012lld", (long long)v); return b; }
+  static std::string enc(int64_t v, int = 0) { char b[32]; snprintf(b, sizeof b, "k%012lld", (long long)v); return b; }
   static std::string show(const std::string& s) {
     if (s.size() != 13 || s[0] != 'k') return "-1";
     return std::to_string(atoll(s.c_str() + 1));
+  }
+};
+
+// doubles: script number v is the double 1.5 * v (exact, order preserving); the number 0 is written +0.0 or -0.0 depending on
+// the position of the token that names it: the two zeros compare equal, so they are ONE item
+template <> struct codec<double> {
+  static double enc(int64_t v, int flip = 0) { if (v == 0) return flip ? -0.0 : 0.0; return 1.5 * (double)v; }
+  static std::string show(const double& d) {
+    double q = d / 1.5; long long r = (long long)(q < 0 ? q - 0.5 : q + 0.5);
+    if ((double)r * 1.5 != d) return "-1";
+    return std::to_string(r);
   }
 };
 
@@ -62,9 +76,10 @@ static void run_script(ygm::comm& c, int argc, char** argv, int first, bool two)
   using cd = codec<T>;
   g_epoch[0] = g_epoch[1] = 0; g_seg[0] = g_seg[1] = 0;
   {
-    dset_t ds0(c);
-    std::unique_ptr<dset_t> ds1p;
-    if (two) ds1p.reset(new dset_t(c));
+    // std::optional: an "epoch" (token E) destroys the container and constructs the next one AT THE SAME ADDRESS
+    std::optional<dset_t> dsv[2];
+    dsv[0].emplace(c);
+    if (two) dsv[1].emplace(c);
     std::set<int64_t> known[2];
     const int me = c.rank(), n = c.size();
     for (int i = first; i < argc; ++i) {
@@ -72,7 +87,8 @@ static void run_script(ygm::comm& c, int argc, char** argv, int first, bool two)
       int cid = 0;
       if (tok.size() > 2 && tok[1] == '/') { cid = tok[0] - '0'; tok = tok.substr(2); }
       if (cid == 1 && !two) continue;
-      dset_t& ds = cid == 0 ? ds0 : *ds1p;
+      dset_t& ds = *dsv[cid];
+      const int flip = i & 1;
       auto f = split(tok, ':');
       if (f.empty()) continue;
       const std::string& op = f[0];
@@ -82,8 +98,8 @@ static void run_script(ygm::comm& c, int argc, char** argv, int first, bool two)
         if (!all && r >= n) continue;               // that rank does not exist on this communicator
         known[cid].insert(a); known[cid].insert(b);
         if (all || r == me) {
-          if (op == "u") ds.async_union(cd::enc(a), cd::enc(b));
-          else ds.async_union_and_execute(cd::enc(a), cd::enc(b), [](const T& oa, const T& ob, const int& cid) {
+          if (op == "u") ds.async_union(cd::enc(a, flip), cd::enc(b, !flip));
+          else ds.async_union_and_execute(cd::enc(a, flip), cd::enc(b, !flip), [](const T& oa, const T& ob, const int& cid) {
             emit(cid, "c " + std::to_string(g_epoch[cid]) + " " + codec<T>::show(oa) + " " + codec<T>::show(ob) + " " + std::to_string(g_seg[cid]));
           }, cid);
         }
@@ -94,7 +110,7 @@ static void run_script(ygm::comm& c, int argc, char** argv, int first, bool two)
         c.barrier();
         if (me == 0) {
           for (int64_t it : known[cid])
-            ds.async_visit(cd::enc(it), [](auto& item_info, int id, int cid) {
+            ds.async_visit(cd::enc(it, flip), [](auto& item_info, int id, int cid) {
               emit(cid, "d " + std::to_string(id) + " " + codec<T>::show(item_info.first) + " " +
                         std::to_string((int)item_info.second.get_rank()) + " " + codec<T>::show(item_info.second.get_parent()));
             }, id, cid);
@@ -111,7 +127,7 @@ static void run_script(ygm::comm& c, int argc, char** argv, int first, bool two)
         std::vector<T> q; size_t p = 0;
         for (int64_t it : known[cid]) {
           bool mine = f[2] == "e" || (f[2] == "a" && me == 0) || (f[2] == "s" && (int)(p % n) == me);
-          if (mine) q.push_back(cd::enc(it));
+          if (mine) q.push_back(cd::enc(it, (flip + me) & 1));
           ++p;
         }
         auto res = ds.all_find(q);
@@ -126,6 +142,12 @@ static void run_script(ygm::comm& c, int argc, char** argv, int first, bool two)
         // collective; may directly follow async_union calls (no barrier in between): clear() itself
         // must first complete everything in flight, then empty the container
         ds.clear(); known[cid].clear(); ++g_seg[cid];
+      } else if (op == "E") {
+        // end of an epoch: the container goes out of scope right after fire-and-forget unions (its destructor has to
+        // complete them) and the next epoch's container of the same type is constructed at the same address
+        dsv[cid].reset();
+        dsv[cid].emplace(c);
+        known[cid].clear(); ++g_seg[cid];
       }
     }
     c.barrier();
@@ -133,9 +155,10 @@ static void run_script(ygm::comm& c, int argc, char** argv, int first, bool two)
   emit(0, "end");
 }
 
-static bool g_str = false;
+static bool g_str = false, g_dbl = false;
 static void run_any(ygm::comm& c, int argc, char** argv, bool two) {
   if (g_str) run_script<std::string>(c, argc, argv, 2, two);
+  else if (g_dbl) run_script<double>(c, argc, argv, 2, two);
   else run_script<int64_t>(c, argc, argv, 2, two);
 }
 
@@ -149,7 +172,10 @@ static void run_sub(int argc, char** argv, bool two, char kind) {
   int wr = 0, ws = 1;
   MPI_Comm_rank(MPI_COMM_WORLD, &wr); MPI_Comm_size(MPI_COMM_WORLD, &ws);
   const char* ppn_s = getenv("SIMMPI_PPN"); int ppn = ppn_s ? atoi(ppn_s) : ws; if (ppn < 1) ppn = 1;
-  int colour = kind == 'p' ? (wr % 2) : kind == 'n' ? (wr / ppn) : (wr < ws - 1 ? 0 : 1);
+  const char* pl = getenv("SIMMPI_PLACEMENT"); bool cyclic = pl && std::string(pl) == "cyclic";
+  int nodes = ws / ppn > 0 ? ws / ppn : 1;
+  int node_of = cyclic ? (wr % nodes) : (wr / ppn);
+  int colour = kind == 'p' ? (wr % 2) : kind == 'n' ? node_of : (wr < ws - 1 ? 0 : 1);
   MPI_Comm subc; MPI_Comm_split(MPI_COMM_WORLD, colour, wr, &subc);
   {
     ygm::comm sub(subc);
@@ -168,7 +194,7 @@ extern "C" int sim_main(int argc, char** argv) {
   std::string mode = m.size() > 1 ? m[1] : "w";
   char kind = m.size() > 2 && !m[2].empty() ? m[2][0] : 'p';
   bool two = false;
-  for (auto& x : m) { if (x == "2") two = true; if (x == "str") g_str = true; }
+  for (auto& x : m) { if (x == "2") two = true; if (x == "str") g_str = true; if (x == "dbl") g_dbl = true; }
   if (mode == "sw") { run_sub(argc, argv, two, kind); run_world(argc, argv, two); }
   else if (mode == "ws") { run_world(argc, argv, two); run_sub(argc, argv, two, kind); }
   else run_world(argc, argv, two);
